@@ -111,7 +111,7 @@ def families(tier):
         parts += parts_product(cb=(3,), x1=(0, 1, 3), x2=(9,), x3=(2,))      # lock, then a task finishes
         parts = [p + ["x4 == %d" % NOP] for p in parts]
         parts += parts_product(cb=(3,), x1=(0, 1, 3), x2=(4,), x3=(7,), x4=(11,))   # cancel; flush; the flush call is cancelled
-        parts += [p + ["x4 == %d" % NOP] for p in parts_product(cb=(3,), x1=(0, 1), x2=(12,), x3=(2, 3))]   # gather_and_close(); a task finishes / fails meanwhile
+        parts += [p + ["x4 == %d" % NOP] for p in parts_product(cb=(3,), x1=(0, 1), x2=(12,), x3=(0, 1, 2, 3))]   # gather_and_close(); a task finishes / fails meanwhile
     else:
         pre = base + ["0 <= size <= 3", "0 <= x3 <= %d" % NOP, "a3 >= -1", "x4 == %d" % NOP, "a4 == 0"]
         parts = refine(parts_product(cb=(1, 3), x1=range(4), x2=range(NOP)), ["x2 == 0", "x2 == 1"], "x3", range(NOP + 1))
